@@ -18,6 +18,16 @@ class _Tag(claripy.Annotation):
     def relocatable(self):
         return True
 
+    # every instance is the same marker (an unpickled copy included)
+    def __eq__(self, other):
+        return isinstance(other, _Tag)
+
+    def __hash__(self):
+        return hash("vf.gen.strbuild._Tag")
+
+    def __repr__(self):
+        return "<_Tag>"
+
 
 def build(d):
     o = base(d[0])
